@@ -101,3 +101,19 @@ Proof. reflexivity. Qed.
 Lemma slowlogtxn_timeouts_ok : slowlogtxn_timeouts =
   ["context.WithTimeout(v0.Ctx(), requestTimeout)"].
 Proof. reflexivity. Qed.
+
+Lemma skel_CheckClusterID_ok : skel_CheckClusterID =
+  [IfE "len(v1) == 0" [Ret] []; ForE [Assign "v3" "= append(v3, v4.StringSlice()...)"]; ForE [Assign "v6" ":= &http.Transport{ TLSClientConfig: v2, }"; Call "GetClusterFromRemotePeers"; Assign "v7" ":= etcdserver.GetClusterFromRemotePeers(nil, []string{v5}, v6)"; Assign "v8" ":= etcdserver.GetClusterFromRemotePeers(nil, []string{v5}, v6)"; Call "ID"; Assign "v9" ":= v7.ID()"; IfE "v9 != v0" [Call "Errorf"; Ret] []]; Ret].
+Proof. reflexivity. Qed.
+
+Lemma check_cluster_id_flow_ok : check_cluster_id_flow =
+  ["if len(v1) == 0"; "return"; "range v1"; "range v3"; "if v8 != nil"; "continue"; "if v9 != v0"; "return"; "return"].
+Proof. reflexivity. Qed.
+
+Lemma check_cluster_id_sites_ok : check_cluster_id_sites =
+  ["server/server.go:startEtcd"].
+Proof. reflexivity. Qed.
+
+Lemma start_etcd_identity_check_ok : start_etcd_identity_check =
+  ["etcdutil.CheckClusterID(v4.Server.Cluster().ID(), v6, v7)"].
+Proof. reflexivity. Qed.
